@@ -12,6 +12,7 @@ func init() {
 		Assumptions: []string{"Increment/Add are exercised only on indexes without negative values and with found-sets of existing columns (conservative reading of 'on non-negative values')", "values stay within the range the index was created or auto-sized for"},
 		Units: []Unit{
 			{Name: "update-histories@plain,race", Quick: 2500, Thorough: 120000, Run: c19Histories},
+			{Name: "pinned-known-finding@plain", Quick: 1, Thorough: 1, Run: c19PinnedKnown, Serial: true},
 		},
 	})
 }
@@ -394,4 +395,19 @@ func c19Copies(c *Ctx, bc *bsiCase) {
 		}
 		c.Eval(2)
 	}
+}
+
+// c19PinnedKnown re-executes the concrete history of the known finding (64-bit BSI MarshalBinary drops the sign
+// plane): SetValue(1,-5); MarshalBinary; UnmarshalBinary.
+func c19PinnedKnown(c *Ctx) {
+	bc := &bsiCase{is64: true, m: bsiModel{}, lo: -1 << 63, hi: 1<<63 - 1}
+	bc.x = newBSIX(true, 0, 0)
+	c.Step("pinned history: BSI64 SetValue(1,-5); SetValue(2,3); MarshalBinary -> UnmarshalBinary")
+	bc.x.setValue(1, -5)
+	bc.x.setValue(2, 3)
+	bc.m[1] = big.NewInt(-5)
+	bc.m[2] = big.NewInt(3)
+	c.Distinct(1)
+	c.Distinct(2)
+	c19Copies(c, bc)
 }
